@@ -40,6 +40,10 @@ extern vfs_fault_t vfs_fault;
 extern long        vfs_ncalls;              /* calls counted against the plan (by mask) */
 extern long        vfs_calls_by_kind[VK_NKINDS];
 void vfs_fault_set(long at, int variant, int sticky, unsigned mask);
+/* optional trace of the kind of every counted call (for enumerating applicable fault variants) */
+extern unsigned char *vfs_kind_trace;
+extern long           vfs_kind_trace_n, vfs_kind_trace_cap;
+void vfs_kind_trace_start(void);
 void vfs_fault_clear(void);
 
 /* ---- write log ----------------------------------------------------------- */
